@@ -20,10 +20,21 @@ WantOf(target) == IF target = "file" THEN "regular" ELSE "directory"
 \* the snapshot before / after the interrupted save.
 CompleteSnapshot(loaded, eqOld, eqNew) == loaded /\ (eqOld \/ eqNew)
 
+\* a file IS a snapshot: its first n bytes (chunks) are the first n of the snapshot of length `size`, and the file is
+\* `len` long -- nothing missing (n = size) and nothing behind it (len = size)
+WholeFile(n, len, size) == n = size /\ len = size
+
 \* --- "the cache reloaded from its state directory is equivalent to the cache at its last successful save"
 \* loaded as above; diff: the set of projected fields whose values differ between the live cache at the save and the
 \* reloaded one.
 ReloadEqual(loaded, diff) == loaded /\ diff = {}
+
+\* --- several generations.  A save made by a process that itself started from a cache file (and did not read anything
+\* before it saved) is a save like any other: ReloadEqual judges it (record kind rt2).  A successful save that found the
+\* temporary file of an interrupted save (or any other file) at the temporary path must leave a cache file that is
+\* exactly its snapshot (record kind crash2): loads, equals the live cache, is as long as the snapshot, and the
+\* temporary path is gone (the rename consumed it).
+SaveOverLeftover(loaded, diff, fileLen, snapLen, tmpLeft) == ReloadEqual(loaded, diff) /\ WholeFile(fileLen, fileLen, snapLen) /\ ~tmpLeft
 
 \* --- observe_at: "the cache file may only ever be replaced by rename"
 \* roles of the system calls that name the final path during a save.
